@@ -123,7 +123,9 @@ void StatusPrinter::BuildEdgeStarted(const Edge* edge,
   if (edge->use_console() || printer_.is_smart_terminal())
     PrintStatus(edge, start_time_millis);
 
-  if (edge->use_console())
+  // In a dry run no command owns the terminal: holding back (and coalescing)
+  // the status lines of the other commands would only lose part of the listing.
+  if (edge->use_console() && !config_.dry_run)
     printer_.SetConsoleLocked(true);
 }
 
